@@ -22,4 +22,11 @@ def check_frame(vc, snap, label, allowed=()):
         for a in allowed:
             if p == a or (a.endswith("*") and p.startswith(a[:-1])):
                 ok = True
+        if not ok and "[" not in p and "{" not in p and "." in p:
+            # an attribute that the code under verification never reads anywhere (a counter
+            # for statistics, a debugging aid) is not state an operation can leave behind
+            # for a later one: outside what a frame is about
+            attr = p.split(".")[-1]
+            if not vc.attr_is_read(attr):
+                ok = True
         vc.check(ok, label + ".frame[" + p + "]")
